@@ -104,8 +104,38 @@ theorem mainStage_intact (cfg : ExecCfg) (m b : Bytes) (hasRetry : Bool) (mh : O
     split <;> (rename_i heq; rw [heq] at this; exact this)
   · exact h
 
+/-- body buffering and the two performs, for whatever copy request was built -/
+theorem performBoth_intact (cfg : ExecCfg) (m b : Bytes) (hasRetry : Bool)
+    (main : Option (Rule × Bytes × Option Nat)) (copy : Option (Rule × Bytes)) (st : ExecState)
+    (hr : st.remaining = b) (h : Intact m b st) :
+    Intact m b (performBoth cfg m hasRetry main copy st).1 := by
+  unfold performBoth
+  simp only
+  split
+  · -- buffered: both stages read a fresh copy of the buffered bytes
+    apply mainStage_intact _ _ _ _ _ _ _ _ (by simp [srcBody, hr])
+    apply copyStage_intact _ _ _ _ _ _ _ (by simp [srcBody, hr])
+    exact fun c hc hf => h c hc hf
+  · -- not buffered: there are not two targets, so only one stage reads the client body
+    rename_i hbuf
+    have hnot : ¬ (main.isSome = true ∧ copy.isSome = true) := by
+      intro ⟨h1, h2⟩; simp [h1, h2] at hbuf
+    cases hcopy : copy with
+    | none =>
+      simp only [Option.map_none, copyStage]
+      exact mainStage_intact _ _ _ _ _ _ _ _ (by simp [srcBody, hr]) h
+    | some c =>
+      have hmain : main = none := by
+        cases hm : main with
+        | none => rfl
+        | some x => exfalso; apply hnot; simp [hcopy, hm]
+      subst hmain
+      simp only [Option.map_none, mainStage]
+      exact copyStage_intact _ _ _ _ _ _ _ (by simp [srcBody, hr]) h
+
 /-- one pass: if it starts with the whole body still unread, every answered contact of the
-    pass carries the client's method and body — for every script, retry count, rule pair -/
+    pass carries the client's method and body — for every script, retry count, rule pair
+    (a copy request that cannot be built is dropped: nothing is sent for it) -/
 theorem routeOnce_intact (cfg : ExecCfg) (m b : Bytes) (hasRetry : Bool)
     (main : Option (Rule × Bytes × Option Nat)) (copy : Option (Rule × Bytes)) (st : ExecState)
     (hr : st.remaining = b) (h : Intact m b st) :
@@ -118,27 +148,7 @@ theorem routeOnce_intact (cfg : ExecCfg) (m b : Bytes) (hasRetry : Bool)
     · exact h
     · split
       · exact h
-      · split
-        · -- buffered: both stages read a fresh copy of the buffered bytes
-          apply mainStage_intact _ _ _ _ _ _ _ _ (by simp [srcBody, hr])
-          apply copyStage_intact _ _ _ _ _ _ _ (by simp [srcBody, hr])
-          exact fun c hc hf => h c hc hf
-        · -- not buffered: there are not two targets, so only one stage reads the client body
-          rename_i hbuf
-          have hnot : ¬ (main.isSome = true ∧ copy.isSome = true) := by
-            intro ⟨h1, h2⟩; simp [h1, h2] at hbuf
-          cases hcopy : copy with
-          | none =>
-            simp only [Option.map_none, copyStage]
-            exact mainStage_intact _ _ _ _ _ _ _ _ (by simp [srcBody, hr]) h
-          | some c =>
-            have hmain : main = none := by
-              cases hm : main with
-              | none => rfl
-              | some x => exfalso; apply hnot; simp [hcopy, hm]
-            subst hmain
-            simp only [Option.map_none, mainStage]
-            exact copyStage_intact _ _ _ _ _ _ _ (by simp [srcBody, hr]) h
+      · exact performBoth_intact cfg m b hasRetry main _ st hr h
 
 /-- **C03, method and body (full statement).** For every rule flavour, fault script and retry
     chain, every answered contact received the client's method and complete body. -/
